@@ -106,6 +106,10 @@ structure Param where
   dflt : Option Expr
   deriving Repr, Inhabited
 
+/-- the three operations on a declared cursor -/
+inductive CurOp | open | close | fetch
+  deriving DecidableEq, Repr, Inhabited
+
 inductive Stmt
   | decl (x : Nat) (e : Expr)                                   -- VAR @x := e
   | assign (x : Nat) (e : Expr)                                 -- @x := e
@@ -120,6 +124,10 @@ inductive Stmt
       -- DECLARE tx VIEW (c1): a temporary table is a variable holding its rows (here: how many); unlike a
       -- variable it cannot be shadowed — DeclareView refuses a name that is visible in ANY block.  INSERT / DELETE
       -- on it from any depth are assignments to the innermost binding (ReplaceTemporaryTable walks outward)
+  | cursor (op : CurOp) (c x : Nat)
+      -- OPEN c / CLOSE c / FETCH c INTO @x on a cursor that is the variable `c` holding its state (see `curStep`);
+      -- declared (closed) by `decl c (lit (int (-off-1)))`.  The INNERMOST declaration of the name decides,
+      -- whatever its state (ReferenceScope.OpenCursor / CloseCursor / FetchCursor stop at the first block that has it)
   | inline (ss : List Stmt)
       -- SOURCE file / EXECUTE 'text' / EXECUTE prepared_statement whose statements are `ss`:
       -- Processor.execute on the SAME processor, i.e. in the current block, the flow handed on
@@ -138,7 +146,7 @@ structure FDecl where
   deriving Repr, Inhabited
 
 inductive Err
-  | undeclaredVar | redeclaredVar | undeclaredFn | redeclaredFn | argCount | dupParam | redeclaredTable | fuel
+  | undeclaredVar | redeclaredVar | undeclaredFn | redeclaredFn | argCount | dupParam | redeclaredTable | cursorClosed | cursorOpen | fuel
   deriving DecidableEq, Repr, Inhabited
 
 /-! ## blocks (BlockScope: Variables and Functions maps) -/
@@ -225,6 +233,39 @@ def declareFn (f : Nat) (d : FDecl) : List Block → Except Err (List Block)
     | some _ => .error .redeclaredFn
     | none => if dupParams d.params then .error .dupParam
               else .ok ({ b with funs := (f, d) :: b.funs } :: rest)
+
+/-- Cursor.Open / Close / Fetch(NEXT) on the state of a cursor over three rows with the values off, off+1, off+2
+    (off a multiple of 10): closed = -off-1; open = off + (number of rows passed, 4 once the end was hit).
+    Result: the new state and, for a successful FETCH, the value fetched. -/
+def curStep : CurOp → SVal → Except Err (SVal × Option SVal)
+  | .open, .int s => if s < 0 then .ok (.int (-s - 1), none) else .error .cursorOpen
+  | .close, .int s => if s < 0 then .ok (.int s, none) else .ok (.int (-(s - s % 10) - 1), none)
+  | .fetch, .int s =>
+    if s < 0 then .error .cursorClosed
+    else if s % 10 < 3 then .ok (.int (s + 1), some (.int s))
+    else .ok (.int (s - s % 10 + 4), none)
+  | .open, _ => .error .cursorOpen
+  | .close, v => .ok (v, none)
+  | .fetch, _ => .error .cursorClosed
+
+/-- ReferenceScope.OpenCursor / CloseCursor / FetchCursor + SubstituteVariableDirectly: the first block (from the
+    innermost outward) that declares `c` is the cursor; the fetched value goes to the visible `x` -/
+def cursorDo (op : CurOp) (c x : Nat) (bs : List Block) : Option Err × List Block :=
+  match getVar c bs with
+  | none => (some .undeclaredVar, bs)
+  | some s =>
+    match curStep op s with
+    | .error e => (some e, bs)
+    | .ok (s', ov) =>
+      match setVar c s' bs with
+      | none => (some .undeclaredVar, bs)
+      | some bs1 =>
+        match ov with
+        | none => (none, bs1)
+        | some v =>
+          match setVar x v bs1 with
+          | none => (some .undeclaredVar, bs1)
+          | some bs2 => (none, bs2)
 
 /-- RequiredArgs: index of the last parameter without a default, plus one -/
 def requiredArgs : List Param → Nat
@@ -400,6 +441,10 @@ def stmtI : Nat → Stmt → Option SVal → St → PRes
       match declareVar x (.int 0) st.blocks with
       | none => .fail .redeclaredTable rv st
       | some bs => .ok rv { st with blocks := bs }
+  | _ + 1, .cursor op c x, rv, st =>
+    match cursorDo op c x st.blocks with
+    | (some err, bs) => .fail err rv { st with blocks := bs }
+    | (none, bs) => .ok rv { st with blocks := bs }
   | fuel + 1, .inline ss, rv, st => executeI fuel ss rv st       -- flow, err = proc.execute(ctx, externalStatements)
   | _ + 1, .brk, rv, st => ⟨.brk, none, rv, st⟩
   | _ + 1, .cont, rv, st => ⟨.cont, none, rv, st⟩
@@ -623,6 +668,10 @@ def stmtS : Nat → Stmt → St → Outcome × St
       match declareVar x (.int 0) st.blocks with
       | none => (.err .redeclaredTable, st)
       | some bs => (.normal, { st with blocks := bs })
+  | _ + 1, .cursor op c x, st =>
+    match cursorDo op c x st.blocks with
+    | (some err, bs) => (.err err, { st with blocks := bs })
+    | (none, bs) => (.normal, { st with blocks := bs })
   | fuel + 1, .inline ss, st => blockS fuel ss st
   | _ + 1, .brk, st => (.brk, st)
   | _ + 1, .cont, st => (.cont, st)
